@@ -35,11 +35,12 @@ func (obj Symbol) Readably(b []byte, p *Printer) []byte {
 		return append(b, '|', '|')
 	}
 	name := string(obj)
-	if name[0] == ':' {
-		b = append(b, ':')
-		name = name[1:]
+	if name[0] == ':' && !needsPipes(name[1:]) {
+		return append(b, p.caseName(name)...)
 	}
-	if needsPipes(name) {
+	// A keyword that needs bars is written as |:name| which the reader
+	// takes for the keyword.
+	if name[0] == ':' || needsPipes(name) {
 		b = append(b, '|')
 		for _, c := range []byte(p.caseName(name)) {
 			if c == '\\' {
